@@ -20,6 +20,9 @@ when `core` is on):
     OBS ok | OBS err <ExceptionClass>
     TM/TC/TS/TA/TT <name>..  TH/TD/TG <name>=<int>..          registered tables, insertion order
     END
+One `_RESERVED_` entry alone (the regular expression of handle_reserve, Model/ResRegex.lean):
+    CASE <id> / RX <maxMsg> <N<int>|S<hex>|O> <none|start:end as re.search finds them> <err:<Class>|ok:<name>=<id>,..|ok:-> / END
+    CASE <id> / CLS space|digit <every code point the real `re` matches with \\s resp. [0-9]> / END
 """
 from __future__ import annotations
 
@@ -268,11 +271,13 @@ def _hex(s: str) -> str:
 
 
 def _entry_tok(e) -> str:
-    if e is None or isinstance(e, bool):
-        return "O"
+    if isinstance(e, bool):
+        return f"N{int(e)}"           # `isinstance(True, int)`: handle_reserve takes a YAML `true` as the id 1
     if isinstance(e, int):
         return f"N{e}"
-    return "S" + _hex(e)
+    if isinstance(e, str):
+        return "S" + _hex(e)
+    return "O"
 
 
 def _pairs(l) -> str:
@@ -361,6 +366,141 @@ def drive(results) -> Tuple[Dict[str, Dict[str, Any]], Dict[str, str]]:
         if len(t) == 3 and t[1] == "INFO":
             info[t[0]] = t[2]
     return C.parse_driver(raw), info
+
+
+# --------------------------------------------------------------------------------------------------
+# the `_RESERVED_` entry syntax: the real pattern, the real `re`, the real handle_reserve
+# --------------------------------------------------------------------------------------------------
+
+MODELLED_PATTERN = r"\s*(?P<start>[0-9]+)\s*(\-|to)\s*(?P<end>[0-9]+)\s*"     # what Model/ResRegex.lean: rangeRe spells
+
+
+def reserve_pattern() -> Tuple[str, str]:
+    """(pattern, function) of the `re.<function>(<pattern literal>, e)` call inside Parser.handle_reserve, read from
+    the source by `ast` (not imported)"""
+    import ast
+    src = (C.REPO / "src" / "pyrtma" / "parser.py").read_text()
+    for node in ast.walk(ast.parse(src)):
+        if isinstance(node, ast.FunctionDef) and node.name == "handle_reserve":
+            for c in ast.walk(node):
+                if (isinstance(c, ast.Call) and isinstance(c.func, ast.Attribute) and isinstance(c.func.value, ast.Name)
+                        and c.func.value.id == "re" and c.args and isinstance(c.args[0], ast.Constant)
+                        and isinstance(c.args[0].value, str)):
+                    return c.args[0].value, c.func.attr
+    raise C.MachineryError("no re.<f>(<literal>, ...) call found in Parser.handle_reserve")
+
+
+_WS = [" ", " ", "  ", "\t", "\n", "\r", "\x0b", "\x0c", "\x1c", "\x1f", "\x85", "\xa0", "\u1680", "\u2000", "\u200a", "\u2028",
+       "\u2029", "\u202f", "\u205f", "\u3000", " \t ", ""]
+_NOT_WS = ["\u200b", "\u180e", "\ufeff", "_", ".", "\x00", "\x1b", "\u2060"]
+_SEPS = ["-", "to"]
+_BAD_SEPS = ["--", "\u2013", "\u2212", "To", "TO", "t o", "..", ":", "", "~", "- -", "t", "o", "ot", "until", "/"]
+_ODD_DIGITS = ["\u0661\u0662", "\uff11\uff12", "\u0967", "\u00b2", "\u2460"]     # digits for \d / str.isdigit(), not for [0-9]
+
+
+def rx_entries(rng, n: int) -> List[Any]:
+    """well-formed and ill-formed entries: every writing of a range, near misses, junk, non-strings"""
+    out: List[Any] = []
+
+    def num(big=False):
+        v = rng.choice([0, 1, 7, 99, 100, 101, 4999, 9999, 10000, 10001, rng.randrange(0, 12000)])
+        if big and rng.random() < 0.1:
+            v = rng.choice([1 << 31, 1 << 64, 10 ** 30])
+        return v
+
+    def digits(v):
+        return rng.choice(["", "", "", "0", "000"]) + str(v)
+    # directed
+    out += ["10-12", "10 to 12", "10to12", " 10  -\t12 ", "7 8 10-12-99", "10", "10 -- 12", "12-10", "1-101", "1-100", "5-5", "",
+            " ", "-", "to", "5-", "-5", "5to", "to5", "-5-7", "5 - -7", "+5-7", "5.0-7", "1e3-2e3", "0x10-0x20", "10-12\n", "\n10-12",
+            "10\n-\n12", "10\u00a0-\u00a012", "10\u3000to\u300012", "10\u200b-12", "a10-12b", "10-12-14", "10 11-12", "10 11 - 12 13",
+            "10-\u0661\u0662", "\uff11\uff10-12", "9999-10000", "10000-10001", "0-0", "00-000", "007-0012", "5 to6", "5t o6", "5 t-o 6",
+            "5-to-6", "5to-6", "5-to6", "to 5-6", "5--6", "5 -6", "5- 6", "1-2 3-4", "3-1 5-6", "x" * 50 + "5-6", "5-6" + "9" * 30,
+            "4294967296-4294967297", "18446744073709551616-18446744073709551617",
+            True, False, 0, 5, -5, 10000, 10001, 2.5, None, [5], {"a": 1}, 5.0, b"5-6"]
+    # every (ws, sep) combination once
+    for w in _WS:
+        for sp in _SEPS:
+            a = num(); b = a + rng.choice([0, 1, 3, 99])
+            out.append(f"{w}{a}{w}{sp}{w}{b}{w}")
+    while len(out) < n:
+        r = rng.random()
+        a = num(True); b = a + rng.choice([0, 0, 1, 2, 5, 50, 99, 100, 101]) if rng.random() < 0.85 else max(0, a - rng.randrange(1, 5))
+        ws = lambda: rng.choice(_WS)
+        if r < 0.35:      # well-formed, any blanks, leading zeros, optional junk around
+            pre = rng.choice(["", "", "", "ids ", "x", "7 8 ", "-", "to", "5 ", "5-", "\u0661"])
+            post = rng.choice(["", "", "", " incl", "-99", "to 7", "x", ".5", "\uff11", " 3"])
+            out.append(f"{pre}{ws()}{digits(a)}{ws()}{rng.choice(_SEPS)}{ws()}{digits(b)}{ws()}{post}")
+        elif r < 0.55:    # near misses
+            kind = rng.randrange(6)
+            if kind == 0:
+                out.append(f"{digits(a)}{ws()}{rng.choice(_BAD_SEPS)}{ws()}{digits(b)}")
+            elif kind == 1:
+                out.append(f"{digits(a)}{rng.choice(_NOT_WS)}{rng.choice(_SEPS)}{digits(b)}")
+            elif kind == 2:
+                out.append(f"{digits(a)}{rng.choice(_SEPS)}{rng.choice(_NOT_WS)}{digits(b)}")
+            elif kind == 3:
+                out.append(f"{rng.choice(_ODD_DIGITS)}{rng.choice(_SEPS)}{digits(b)}")
+            elif kind == 4:
+                out.append(f"{digits(a)}{rng.choice(_SEPS)}{rng.choice(_ODD_DIGITS)}")
+            else:
+                out.append(rng.choice([f"{digits(a)}", f"{digits(a)}{ws()}{rng.choice(_SEPS)}", f"{rng.choice(_SEPS)}{ws()}{digits(b)}"]))
+        elif r < 0.9:     # random strings over the alphabet of the pattern (the regex-equivalence fuzz)
+            alpha = "0123456789" + "  --tttooo" + "\t\n\xa0\u2003" + "xT_.\u0661"
+            out.append("".join(rng.choice(alpha) for _ in range(rng.randrange(0, 14))))
+        else:
+            out.append(rng.choice([num(True), -num(), True, False, 2.5, None, [num()], str(num())]))
+    return out
+
+
+def _rx_work(args) -> Dict[str, Any]:
+    entry, pattern, maxmsg = args
+    import re
+    from pyrtma import parser as P
+    rec: Dict[str, Any] = {"entry": entry if not isinstance(entry, bytes) else repr(entry)}
+    if isinstance(entry, str):
+        m = re.search(pattern, entry)
+        gd = m.groupdict() if m is not None else None
+        rec["re"] = None if gd is None or "start" not in gd or "end" not in gd else [int(gd["start"]), int(gd["end"])]
+    p = P.Parser(import_coredefs=False)
+    p.logger.handlers.clear(); p.logger.addHandler(logging.NullHandler()); p.logger.setLevel(logging.CRITICAL + 10)
+    p.root_path = Path("/nowhere"); p.current_file = Path("/nowhere/defs.yaml")
+    try:
+        p.handle_reserve("_RESERVED_", {"id": [entry]})
+        ids = [[k, int(v.type_id)] for k, v in p.message_defs.items()]
+        if [[k, int(v.value)] for k, v in p.message_ids.items()] != ids:
+            rec["ids_mismatch"] = True
+        rec["impl"] = {"ok": True, "ids": ids}
+    except BaseException as e:  # noqa: BLE001
+        if isinstance(e, (KeyboardInterrupt, SystemExit)):
+            raise
+        rec["impl"] = {"ok": False, "cls": type(e).__name__, "msg": str(e)[:120]}
+    finally:
+        logging.Logger.manager.loggerDict.pop(f"pyrtma.parser ({P.Parser._instance_count})", None)
+    return rec
+
+
+def rx_run(entries: List[Any]) -> Tuple[List[Dict[str, Any]], List[str], Dict[str, Any]]:
+    """-> (records, protocol lines, meta): every entry through the real `re.search(<pattern of the source>)` and the real
+    handle_reserve; the two character classes over every code point"""
+    import re
+    pattern, func = reserve_pattern()
+    _, maxmsg = core_files()
+    meta = {"pattern": pattern, "function": func, "pattern_is_the_modelled_one": pattern == MODELLED_PATTERN and func == "search"}
+    recs = [_rx_work((e, pattern, maxmsg)) for e in entries]
+    lines: List[str] = []
+    for k, r in enumerate(recs):
+        r["cid"] = f"x{k}"
+        e = entries[k]
+        reobs = "none" if r.get("re") is None else f"{r['re'][0]}:{r['re'][1]}"
+        impl = ("ok:" + (",".join(f"{n}={v}" for n, v in r["impl"]["ids"]) or "-")) if r["impl"]["ok"] else "err:" + r["impl"]["cls"]
+        lines += [f"CASE {r['cid']}", f"RX {maxmsg} {_entry_tok(e)} {reobs} {impl}", "END"]
+    for kind, pat in (("space", r"\s"), ("digit", r"[0-9]")):
+        cre = re.compile(pat)
+        pts = [i for i in range(0x110000) if not 0xd800 <= i <= 0xdfff and cre.fullmatch(chr(i))]
+        lines += [f"CASE cls_{kind}", f"CLS {kind} " + " ".join(map(str, pts)), "END"]
+        meta[f"class_{kind}_size"] = len(pts)
+    return recs, lines, meta
 
 
 # --------------------------------------------------------------------------------------------------
